@@ -34,7 +34,7 @@ func typeSwitchClauses(f *core.Func, typ string) []*ast.CaseClause {
 
 // ruleQU: quoting is literal.
 func ruleQU() Rule {
-	return Rule{ID: "QU", Kind: "must", Floor: 6,
+	return Rule{ID: "QU", Kind: "must", Floor: 3,
 		Doc: "in expand, everything produced under `case *ast.Quote` is joined as quoted (constant true) or expanded recursively with the Quote mode bit; tilde expansion is attempted only on unquoted literals and gives up at once in Arith/Quote mode (QU1); the single-quote scanner compares the rune with nothing but the closing quote and copies every other rune (QU2)",
 		Run: func(c *Ctx, rr *core.RuleResult) {
 			f := c.mustFn(rr, "interp.(*ExecEnv).expand")
@@ -199,7 +199,7 @@ func ruleQU() Rule {
 
 // ruleSP: field splitting side conditions.
 func ruleSP() Rule {
-	return Rule{ID: "SP", Kind: "must", Floor: 4,
+	return Rule{ID: "SP", Kind: "must", Floor: 3,
 		Doc: "in split: a quoted segment is joined as quoted, never cut, and clears the white-space state (SP1); field.empty consults the quoted flag; an unset IFS means the constant \" \\t\\n\" (SP2); cut offsets inside `for j, r := range s` advance by the rune's encoded width (BR3)",
 		Run: func(c *Ctx, rr *core.RuleResult) {
 			f := c.mustFn(rr, "interp.(*ExecEnv).split")
